@@ -301,6 +301,10 @@ fn root_sets() -> Vec<Vec<C>> {
         // coefficients (x^2 - 3i x - 2; x^3 - 2i x^2 + x - 2i) - a coefficient judged by its real part alone vanishes
         vec![c(0.0, 1.0), c(0.0, 2.0)],
         vec![c(0.0, 1.0), c(0.0, -1.0), c(0.0, 2.0)],
+        // degree 1 with a root that is not its own reciprocal (the first set's root 1 is), real and complex
+        vec![c(2.5, 0.0)],
+        vec![c(-0.4, 0.0)],
+        vec![c(0.5, 1.5)],
     ]
 }
 /// ascending coefficients of lead * prod (x - z_j)
